@@ -4,12 +4,14 @@
 //	(A) exhaustive sequential model differential (all sequences of <= 7/8
 //	    operations) plus seeded longer sequential histories;
 //	(B) concurrent trials, P producers and one consumer, judged by the
-//	    history oracle of oracle.go (conservation bounds, real-time order of
-//	    completed first insertions, refusal after Close, closed only after
-//	    everything owed was delivered) and by the attributable-stuck rule for
-//	    bounded wake-up;
+//	    history oracle of oracle.go (linearizable reading: every Insert that
+//	    returned a nil error is accounted for by deliveries before the first
+//	    closed report, which is final; real-time order of completed first
+//	    insertions; refusal only for Inserts overlapping or following Close)
+//	    and by the attributable-stuck rule for bounded wake-up;
 //	(C) forced-window trials: gates at the two schedule points hold the
-//	    consumer after a failed next() / a producer after the closed check.
+//	    consumer after a failed next() / a producer about to insert while
+//	    Close runs (refusal OR delivery before the closed report).
 package main
 
 import (
@@ -393,12 +395,13 @@ func main() {
 		ID: "C11",
 		Rule: "exhaustive: every sequence of <= 7 (thorough 8) operations over {Insert a, Insert b, Next, Close, Len, IsClosed} on a fresh queue (Next with an already-cancelled context when the model says it would block), each result compared with the model, followed by a final Len/IsClosed/Close/drain/refused-Insert comparison; counted when >= 1 delivery and (a coalesced insert, a refused insert or a second delivery) occurred. " +
 			"seqrandom: seeded sequential histories of 10-80 operations over 2-6 items of mixed dynamic type incl. Next with a cancelled context; counted when >= 2 deliveries and >= 1 coalesced delivery. " +
-			"concurrent: P in 1..8 producers, one consumer, 2-20 items, 50-2000 inserts in 1-200 drained phases, ending by drain+Close, Close right after the producers, Close mid-stream, cancel mid-stream or cancel when idle; counted when the consumer was told closed (lower bound judged), >= 1 coalesced delivery and >= 1 order pair were judged; hashed by the observed delivery sequence. " +
-			"forced: scripted windows with gates at coalesce.next.empty / coalesce.insert.checked; counted when every requested gate was reached and the oracle judged the history; hashed by script and observed results.",
+			"concurrent: P in 1..8 producers, one consumer, 2-20 items, 50-2000 inserts in 1-200 drained phases, ending by drain+Close, Close right after the producers, Close mid-stream, cancel mid-stream or cancel when idle; counted when the consumer was told closed (so 'everything accepted was delivered before the closed report' was judged), >= 1 coalesced delivery and >= 1 order pair were judged; hashed by the observed delivery sequence. " +
+			"forced: scripted windows with gates at coalesce.next.empty (consumer between a failed next() and the select) / coalesce.insert.checked (producer about to insert while Close runs: the Insert must be refused or delivered before the closed report); counted when every requested gate was reached and the oracle judged the history; hashed by script and observed results.",
 		Assumptions: []string{
 			"the model (ordered list of distinct pending items, count per item, closed flag) written from the property statement is the specification of single-goroutine behaviour",
 			"one consumer at a time (as subscribe.Server uses the queue); several producers; items are comparable values",
-			"concurrent oracle uses only real-time precedence between completed calls (ticks of one atomic counter drawn at the harness boundary); an Insert overlapping Close may be accepted and never delivered (bounds B <= sum(1+dups) <= A)",
+			"concurrent oracle uses only real-time precedence between completed calls (ticks of one atomic counter drawn at the harness boundary) and the linearizable reading of the statement: sum(1+dups) over the deliveries that precede the first closed report equals, per item, the number of Inserts that returned a nil error (whatever their overlap with Close); after a closed report no Next returns an item and Len is 0; an Insert may be refused only if Close was called before it returned, and must be refused if it was called after Close returned",
+			"phase barriers and the stuck rule use the harness's own bookkeeping (accepted minus delivered units), not the queue's Len",
 			"bounded wake-up is judged as bounded progress: a consumer in Next that has not returned for >= 10 s (and >= 80 watchdog wake-ups of the harness) after an Insert / Close / cancel completed while no other goroutine of the trial is running, with the goroutine dump showing it parked in coalesce.(*Queue).Next, is a violation; anything less is inconclusive",
 			"schedules are explored by perturbation at the two schedule points and GOMAXPROCS variation, not enumerated",
 		},
